@@ -216,6 +216,8 @@ type childUse struct {
 	pos    string
 }
 
+var kindChildrenBusy = map[*FuncInfo]bool{}
+
 func kindChildren(w *World, root *FuncInfo, targets map[*types.Func]bool) map[string][]childUse {
 	out := map[string][]childUse{}
 	info := root.Pkg.TypesInfo
@@ -246,6 +248,46 @@ func kindChildren(w *World, root *FuncInfo, targets map[*types.Func]bool) map[st
 		return true
 	})
 	if ts == nil {
+		// the dispatch over the node kinds may sit in a helper the function hands its node parameter to
+		// (generate -> declare): read it there
+		var vias []*FuncInfo
+		sig := root.Obj.Type().(*types.Signature)
+		ast.Inspect(root.Decl.Body, func(x ast.Node) bool {
+			call, ok := x.(*ast.CallExpr)
+			if !ok {
+				return true
+			}
+			h := w.Funcs[calleeOf(info, call)]
+			if h == nil || h == root || h.Pkg != root.Pkg || h.Decl.Body == nil || targets[h.Obj] {
+				return true
+			}
+			for _, a := range call.Args {
+				id := identOf(a)
+				if id == nil {
+					continue
+				}
+				v, ok := info.Uses[id].(*types.Var)
+				if !ok || len(kindsOfStatic(w, v.Type())) <= 1 {
+					continue
+				}
+				for i := 0; i < sig.Params().Len(); i++ {
+					if sig.Params().At(i) == v {
+						vias = append(vias, h)
+					}
+				}
+			}
+			return true
+		})
+		for _, via := range vias {
+			if kindChildrenBusy[via] {
+				continue
+			}
+			kindChildrenBusy[via] = true
+			for k, us := range kindChildren(w, via, targets) {
+				out[k] = append(out[k], us...)
+			}
+			delete(kindChildrenBusy, via)
+		}
 		return out
 	}
 	for _, cl := range ts.Body.List {
@@ -478,4 +520,44 @@ func recursionShape(w *World, r *Result, rule, namer, definer string) int {
 		}
 	}
 	return n
+}
+
+// nodeParamHelpers lists the functions of root's package that root hands one of its node-typed parameters to: the
+// dispatch over the node kinds may have been moved there (generate -> declare).
+func nodeParamHelpers(w *World, root *FuncInfo) []*FuncInfo {
+	var out []*FuncInfo
+	if root == nil || root.Decl.Body == nil {
+		return nil
+	}
+	info := root.Pkg.TypesInfo
+	sig := root.Obj.Type().(*types.Signature)
+	seen := map[*FuncInfo]bool{}
+	ast.Inspect(root.Decl.Body, func(x ast.Node) bool {
+		call, ok := x.(*ast.CallExpr)
+		if !ok {
+			return true
+		}
+		h := w.Funcs[calleeOf(info, call)]
+		if h == nil || h == root || h.Pkg != root.Pkg || h.Decl.Body == nil || seen[h] {
+			return true
+		}
+		for _, a := range call.Args {
+			id := identOf(a)
+			if id == nil {
+				continue
+			}
+			v, ok := info.Uses[id].(*types.Var)
+			if !ok || len(kindsOfStatic(w, v.Type())) <= 1 {
+				continue
+			}
+			for i := 0; i < sig.Params().Len(); i++ {
+				if sig.Params().At(i) == v && !seen[h] {
+					seen[h] = true
+					out = append(out, h)
+				}
+			}
+		}
+		return true
+	})
+	return out
 }
